@@ -1,5 +1,6 @@
 import Ntrip.Proofs.PipeTerm
 import Ntrip.Proofs.SegmentRefine
+import Ntrip.Proofs.SegmentSpec
 /-!
 # C09 — the reader-to-sinks pipeline delivers the same messages under every schedule
 
@@ -83,6 +84,27 @@ theorem pipeline_delivers {crc bs produced} (ht : Timing crc bs produced) (k cap
   have hI := reach_inv _ (cfg_wf ht k cap isNil) h
   refine ⟨hfin.1, (hI.mr hfin.1).2.1, fun i hi hn => ⟨hfin.2 i hi hn, ?_⟩⟩
   exact done_all_handled _ (cfg_wf ht k cap isNil) h i hi hn (hfin.2 i hi hn)
+
+/-- At every moment and under every schedule any two consumers agree on what they have seen so
+    far: one has handled a prefix of what the other has handled (no consumer sees a different
+    message or a different order). -/
+theorem consumers_agree {crc bs produced} (ht : Timing crc bs produced) (k cap isNil) {s}
+    (h : Reach (pipeCfg crc bs produced k cap isNil) s) (i j : Nat) (hi : i < k) (hj : j < k)
+    (hni : isNil i = false) (hnj : isNil j = false) :
+    s.handled i <+: s.handled j ∨ s.handled j <+: s.handled i :=
+  List.prefix_or_prefix_of_prefix (pipeline_prefix ht k cap isNil h i hi hni)
+    (pipeline_prefix ht k cap isNil h j hj hnj)
+
+/-- … and the raw bytes a consumer has handled are always a prefix of the input stream. -/
+theorem handled_bytes_prefix {crc bs produced} (ht : Timing crc bs produced) (k cap isNil) {s}
+    (h : Reach (pipeCfg crc bs produced k cap isNil) s) (i : Nat) (hi : i < k) (hn : isNil i = false) :
+    ((s.handled i).map (·.raw)).flatten <+: bs := by
+  obtain ⟨t, ht'⟩ := pipeline_prefix ht k cap isNil h i hi hn
+  have hl : ((segment crc (In.ofBytes bs)).map (·.raw)).flatten = bs := by
+    rw [handleMessages_eq]; exact (segmentS_lossless crc _ bs rfl).1
+  rw [← ht'] at hl
+  simp only [List.map_append, List.flatten_append] at hl
+  exact ⟨_, hl⟩
 
 /-! Non-vacuity: the timing "emit everything only after the close" is admissible for every
     stream (so the hypotheses of the theorems are satisfiable), and the initial state is reachable. -/
